@@ -40,11 +40,7 @@ def rowsOfWire? (w : String) : Option (List (List S)) :=
 
 def flatOfWire? (w : String) : Option (List S) := (rowsOfWire? w).map List.flatten
 
-/-- the criterion a (typed) criteria argument denotes in the statement -/
-def specCrit (crit : S) : Option (Spec.C15.Op × Cls) :=
-  match crit with
-  | .text s => Spec.C15.critOfText s
-  | c => (cls c).map fun k => (Spec.C15.Op.eq, k)
+def specCrit (crit : S) : Option (Spec.C15.Op × Cls) := Spec.C15.critOf crit
 
 def chunks (n : Nat) (fuel : Nat) (l : List S) : Option (List (List S × S)) :=
   match fuel with
@@ -67,7 +63,7 @@ def specCountifs (range1 : List S) (crit1 : S) (rest : List S) : String :=
         let (o, k) ← specCrit c
         pure (col, o, k)
     match conv with
-    | some ps => (S.num (.int (Spec.C15.countifs range1.length ps))).wire
+    | some ps => (S.num (.int (Spec.C15.countifs ps))).wire
     | none => "-"
 
 def wholeNum? : S → Option Int
